@@ -69,6 +69,12 @@ theorem forIn_sim {α γ σ β ε : Type} (R : σ → β → Prop) (emb : ε →
       rw [hr]
       exact ih s' b1 hR (fun c hc s b hsb => hstep c (by simp [hc]) s b hsb)
 
+/-- one pass that yields a state related to the model's next state -/
+theorem Sim.yield_ok {σ β ε : Type} {R : σ → β → Prop} {emb : ε → PyErr} {x : PyM (ForInStep σ)} {b : β} (X : σ)
+    (hx : x = .ok (.yield X)) (hR : R X b) :
+    Sim (fun (r : ForInStep σ) b' => ∃ s', r = .yield s' ∧ R s' b') emb x (.ok b) :=
+  ⟨_, hx, X, rfl, hR⟩
+
 /-- continue after a simulated computation with a step that cannot fail on related states -/
 theorem Sim.bind {σ τ β ε : Type} {R : σ → β → Prop} {R' : τ → β → Prop} {emb : ε → PyErr}
     {x : PyM σ} {y : Except ε β} {k : σ → PyM τ}
